@@ -203,6 +203,7 @@ struct Sums {
     with_request_cases_clean: u64,
     stray_cases_clean: u64,
     unsendable_cases_clean: u64,
+    overlong_cases_clean: u64,
     families_cases_clean: u64,
     dual_listener_cases_clean: u64,
     dual_cases_clean: u64,
@@ -249,6 +250,8 @@ fn add_udp(a: &mut UdpStats, b: &UdpStats) {
     a.target_sources += b.target_sources;
     a.unsendable_judged += b.unsendable_judged;
     a.unsendable_answer_late += b.unsendable_answer_late;
+    a.overlong_completed += b.overlong_completed;
+    a.overlong_tcp_bytes_echoed += b.overlong_tcp_bytes_echoed;
 }
 
 // ---------------------------------------------------------------------------------------
@@ -488,6 +491,15 @@ fn matrix(b: &Bounds) -> Vec<Case> {
     for kind in UKind::ALL {
         for topo in Topo::UNSENDABLE {
             let c = UdpCase { kind, size: udp::UNSEND_LEN, topo };
+            if c.valid() {
+                v.push(Case::Udp(c));
+            }
+        }
+    }
+    // a TCP remote beside a UDP remote whose target host is too long for a datagram frame (and the control)
+    for kind in UKind::ALL {
+        for topo in Topo::OVERLONG {
+            let c = UdpCase { kind, size: udp::OVERLONG_LEN, topo };
             if c.valid() {
                 v.push(Case::Udp(c));
             }
@@ -1207,6 +1219,7 @@ pub fn run(args: &Args) -> Report {
                                         Case::Tcp(t) if t.order.after_half() => g.after_half_cases_clean += 1,
                                         Case::Udp(u) if u.topo.stray().is_some() => g.stray_cases_clean += 1,
                                         Case::Udp(u) if u.topo.unsendable().is_some() => g.unsendable_cases_clean += 1,
+                                        Case::Udp(u) if u.topo.overlong().is_some() => g.overlong_cases_clean += 1,
                                         Case::Udp(u) if u.topo.two_families() => g.families_cases_clean += 1,
                                         Case::Udp(u) if u.topo.dual_listener().is_some() => g.dual_listener_cases_clean += 1,
                                         _ => {}
@@ -1439,7 +1452,18 @@ pub fn run(args: &Args) -> Report {
         Topo::UNSENDABLE.iter().filter_map(|t| t.unsendable()).map(|(d, n, _)| format!("{n}: {}", d.describe())).collect::<Vec<_>>().join("; "),
         udp::UNSEND_LEN
     );
-    rep.rule = format!("complete product, every point enumerated (no sampling): TCP = entry point (7) x connections {:?} x chunking (3) x [close order (4) x client->target length in L x target->client length in L + target-refuses x client->target length in L], where {len_rule}{after_half_rule}{slow_rule}{with_request_rule}{v6_rule}{dual_rule}; UDP = entry (UDP remote, SOCKS5 UDP with IPv4 header, with domain header) x topology (1 client, 3 clients, 1 socket to 2 entry points, 1 client whose payload lengths change from datagram to datagram (len, 3, len+500, 0, len+1); SOCKS5 only: 1 association alternating between 2 targets with the same host string and different ports, and between 2 targets with different host strings 127.0.0.1/127.0.0.2 and the same port) x payload length, 3 request/reply exchanges per leg{stray_rule}{unsendable_rule}{families_rule}{dual_listener_rule}{}; one execution per point (more only after a lost port race or a deadline hit); a case is distinct when its parameter tuple is distinct", b.concs, if b.slow_udp { format!("; plus the real-time scenarios: UDP entry (3) x [steady sender: 1 datagram of {} bytes per second for 2*UDP_PRUNE_TIMEOUT+3 = {} s to a silent target, which then answers the last one | idle: one exchange, {} s of silence, one more exchange | idle gap between one and two prune timeouts: one exchange, {} s of silence, one more exchange from the same socket whose FIRST transmission must be at the target within {} ms]", udp::SLOW_LEN, 2 * udp::prune_timeout().as_secs() + 3, 2 * udp::prune_timeout().as_secs() + 1, udp::prune_timeout().as_secs() + udp::GAP_EXTRA_S, udp::GAP_FIRST_TX_MS) } else { format!("; plus one real-time scenario per UDP entry (3): idle gap between one and two prune timeouts (one exchange, {} s of silence, one more exchange from the same socket whose FIRST transmission must be at the target within {} ms)", udp::prune_timeout().as_secs() + udp::GAP_EXTRA_S, udp::GAP_FIRST_TX_MS) });
+    let overlong_rule = format!(
+        "; plus UDP remote x target host of the remote specification too long for a datagram frame ({}): ONE client with a fixed-target TCP remote to an echo target AND a `udp` remote 127.0.0.1:PORT:<N x 'a'>:{}/udp; a TCP connection through the TCP remote echoes {} bytes, ONE datagram of {} bytes is sent to the UDP remote's local port, {} ms later the SAME TCP connection must echo {} more bytes, a second TCP connection through the remote must be accepted and echo {} bytes, and client_main_inner must still be running (keys {}.tcp-stream-broken / .new-connection-refused / .client-ended + .256 / .255-control; see assumptions)",
+        Topo::OVERLONG.iter().filter_map(|t| t.overlong()).map(|(n, v)| format!("{v}: N = {n}")).collect::<Vec<_>>().join(", "),
+        udp::OVERLONG_DST_PORT,
+        udp::OVERLONG_TCP_LEN,
+        udp::OVERLONG_LEN,
+        udp::OVERLONG_PAUSE_MS,
+        udp::OVERLONG_TCP_LEN,
+        udp::OVERLONG_TCP_LEN,
+        udp::OVERLONG_KEY
+    );
+    rep.rule = format!("complete product, every point enumerated (no sampling): TCP = entry point (7) x connections {:?} x chunking (3) x [close order (4) x client->target length in L x target->client length in L + target-refuses x client->target length in L], where {len_rule}{after_half_rule}{slow_rule}{with_request_rule}{v6_rule}{dual_rule}; UDP = entry (UDP remote, SOCKS5 UDP with IPv4 header, with domain header) x topology (1 client, 3 clients, 1 socket to 2 entry points, 1 client whose payload lengths change from datagram to datagram (len, 3, len+500, 0, len+1); SOCKS5 only: 1 association alternating between 2 targets with the same host string and different ports, and between 2 targets with different host strings 127.0.0.1/127.0.0.2 and the same port) x payload length, 3 request/reply exchanges per leg{stray_rule}{unsendable_rule}{overlong_rule}{families_rule}{dual_listener_rule}{}; one execution per point (more only after a lost port race or a deadline hit); a case is distinct when its parameter tuple is distinct", b.concs, if b.slow_udp { format!("; plus the real-time scenarios: UDP entry (3) x [steady sender: 1 datagram of {} bytes per second for 2*UDP_PRUNE_TIMEOUT+3 = {} s to a silent target, which then answers the last one | idle: one exchange, {} s of silence, one more exchange | idle gap between one and two prune timeouts: one exchange, {} s of silence, one more exchange from the same socket whose FIRST transmission must be at the target within {} ms]", udp::SLOW_LEN, 2 * udp::prune_timeout().as_secs() + 3, 2 * udp::prune_timeout().as_secs() + 1, udp::prune_timeout().as_secs() + udp::GAP_EXTRA_S, udp::GAP_FIRST_TX_MS) } else { format!("; plus one real-time scenario per UDP entry (3): idle gap between one and two prune timeouts (one exchange, {} s of silence, one more exchange from the same socket whose FIRST transmission must be at the target within {} ms)", udp::prune_timeout().as_secs() + udp::GAP_EXTRA_S, udp::GAP_FIRST_TX_MS) });
     rep.bounds.insert("tcp_entry_points".into(), json!(Entry::ALL.iter().map(|e| e.name()).collect::<Vec<_>>()));
     rep.bounds.insert("ipv6_loopback".into(), json!(b.ipv6_loopback));
     rep.bounds.insert("tcp_ipv6_literal_entry_points".into(), json!(if b.ipv6_loopback { Entry::V6.iter().map(|e| e.name()).collect::<Vec<_>>() } else { Vec::new() }));
@@ -1473,6 +1497,13 @@ pub fn run(args: &Args) -> Report {
     rep.bounds.insert("udp_unsendable_destination_slow_target_delay_ms".into(), json!(udp::UNSEND_DELAY_MS));
     rep.bounds.insert("udp_unsendable_destination_answer_lost_after_ms".into(), json!(udp::UNSEND_LOST_AFTER_MS));
     rep.bounds.insert("udp_unsendable_destination_cases".into(), json!(cases.iter().filter(|c| matches!(c, Case::Udp(u) if u.topo.unsendable().is_some())).count()));
+    rep.bounds.insert("udp_overlong_target_host_topologies".into(), json!(Topo::OVERLONG.iter().map(|e| e.name()).collect::<Vec<_>>()));
+    rep.bounds.insert("udp_overlong_target_host_octets".into(), json!(Topo::OVERLONG.iter().filter_map(|t| t.overlong()).map(|(n, v)| json!({"variant": v, "target_host_octets": n, "target_host": format!("{n} x 'a'")})).collect::<Vec<_>>()));
+    rep.bounds.insert("udp_overlong_target_host_entries".into(), json!(UKind::ALL.iter().filter(|k| UdpCase { kind: **k, size: udp::OVERLONG_LEN, topo: Topo::OverlongHost256 }.valid()).map(|e| e.name()).collect::<Vec<_>>()));
+    rep.bounds.insert("udp_overlong_target_host_datagram_payload_length".into(), json!(udp::OVERLONG_LEN));
+    rep.bounds.insert("udp_overlong_target_host_tcp_block_length".into(), json!(udp::OVERLONG_TCP_LEN));
+    rep.bounds.insert("udp_overlong_target_host_pause_after_datagram_ms".into(), json!(udp::OVERLONG_PAUSE_MS));
+    rep.bounds.insert("udp_overlong_target_host_cases".into(), json!(cases.iter().filter(|c| matches!(c, Case::Udp(u) if u.topo.overlong().is_some())).count()));
     rep.bounds.insert("tcp_payload_lengths".into(), json!(b.tcp_lens));
     rep.bounds.insert("tcp_payload_length_only_for_1_connection_one_write".into(), json!(b.tcp_len_window));
     rep.bounds.insert("tcp_connections".into(), json!(b.concs));
@@ -1515,6 +1546,9 @@ pub fn run(args: &Args) -> Report {
     rep.extra.insert("udp_unsendable_destination_cases_clean".into(), json!(sums.unsendable_cases_clean));
     rep.extra.insert("udp_unsendable_destination_cases_judged_definitively".into(), json!(sums.udp.unsendable_judged));
     rep.extra.insert("udp_unsendable_destination_answer_late_not_lost".into(), json!(sums.udp.unsendable_answer_late));
+    rep.extra.insert("udp_overlong_target_host_cases_clean".into(), json!(sums.overlong_cases_clean));
+    rep.extra.insert("udp_overlong_target_host_sequences_completed".into(), json!(sums.udp.overlong_completed));
+    rep.extra.insert("udp_overlong_target_host_tcp_bytes_echoed".into(), json!(sums.udp.overlong_tcp_bytes_echoed));
     rep.extra.insert("udp_two_address_families_cases_clean".into(), json!(sums.families_cases_clean));
     rep.extra.insert("udp_dual_stack_listener".into(), b.dual_listener_status());
     rep.extra.insert("udp_dual_stack_listener_cases_clean".into(), json!(sums.dual_listener_cases_clean));
@@ -1580,7 +1614,8 @@ pub fn run(args: &Args) -> Report {
             rep.sample(c.to_json());
         }
     }
-    let picks: [&dyn Fn(&Case) -> bool; 14] = [
+    let picks: [&dyn Fn(&Case) -> bool; 15] = [
+        &|c| matches!(c, Case::Udp(u) if u.topo == Topo::OverlongHost256),
         &|c| matches!(c, Case::Tcp(t) if t.chunk == Chunk::WithRequest && t.entry == Entry::Socks5Domain && t.order == Order::ClientHalf && t.conc == 1 && t.c2t > tcp::WITH_REQUEST_HEAD && t.t2c > 1),
         &|c| matches!(c, Case::Tcp(t) if t.slow.is_some_and(|s| s.dir == SlowDir::Download) && t.entry == Entry::TcpRemote && t.conc == 1),
         &|c| matches!(c, Case::Tcp(t) if t.slow.is_some_and(|s| s.dir == SlowDir::Upload) && t.entry == Entry::Socks5Ip),
@@ -1624,6 +1659,13 @@ pub fn run(args: &Args) -> Report {
         udp::UNSEND_PORT_KEY,
         udp::UNSEND_PRUNE_MARGIN_S
     ));
+    rep.assumptions.push(format!(
+        "overlong-target-host scenarios (the only ones whose client has more than one kind of remote: a TCP remote to an echo target beside a `udp` remote whose target host is {} octets long; control: {} octets, a name that does not resolve): the remote-specification parser accepts such a host, and a datagram for it is refused at the sender (DatagramHostTooLong; the control's datagram travels and the server cannot forward it). Nothing is expected to come back for the ONE datagram; judged is what may NOT follow from it, {} ms after it was sent: the TCP connection opened before it still echoes (key {k}.tcp-stream-broken.<variant>), a new connection through the TCP remote is accepted and echoes (key {k}.new-connection-refused.<variant>) and client_main_inner has not returned (key {k}.client-ended.<variant>). A connection that was closed or reset, a refused connect and an ended client are definitive (not deadline-type: they count at once); only 'open but silent until the deadline' is a deadline-type failure. Whatever goes wrong BEFORE the datagram is sent has keys {k}.before-the-datagram.* or subject.client-exited. extra.udp_overlong_target_host_sequences_completed counts the scenarios that went through the whole sequence",
+        Topo::OverlongHost256.overlong().map_or(0, |o| o.0),
+        Topo::OverlongHost255.overlong().map_or(0, |o| o.0),
+        udp::OVERLONG_PAUSE_MS,
+        k = udp::OVERLONG_KEY
+    ));
     rep.assumptions.push("dual-stack-name sub-matrix: what the resolver answers is controlled by a hosts file bind-mounted over /etc/hosts inside a private mount namespace of a child process (needs CAP_SYS_ADMIN; glibc's `files` NSS module); where that cannot be had the sub-matrix is skipped (bounds.dual_stack_names says why). The expectation is observed, not written down: a direct connection to (name, port) from the same process. The order of the addresses is whatever getaddrinfo returns (RFC 6724 sorting: recorded in bounds.dual_stack_name_resolver_order), so which listening set exposes a server that tries only the first address depends on the machine".into());
     rep.assumptions.push("IPv6-literal and dual-stack-name sub-matrices: a scenario in which every local connection has ended short of the target's payload (dual-stack names: or got a refusal / a close instead of the grant) while the target was never connected to is closed at once (key tcp.closed.target-not-reached.*) instead of waiting for the deadline".into());
 
@@ -1659,6 +1701,9 @@ pub fn run(args: &Args) -> Report {
         // (one such scenario may be the load of the machine; none at all is a topology that does not do its job here)
         if sums.unsendable_cases_clean > 0 && sums.udp.unsendable_judged == 0 {
             why.push("every unsendable-destination scenario passed without meeting the preconditions of its judgement (question-1 at the slow target after one transmission, the datagram for the second destination sent while the answer was outstanding)");
+        }
+        if sums.udp.overlong_completed != cases.iter().filter(|c| matches!(c, Case::Udp(u) if u.topo.overlong().is_some())).count() as u64 {
+            why.push("not every overlong-target-host scenario went through its whole sequence (TCP echo, one datagram, TCP echo on the same and on a new connection)");
         }
         if (sums.tcp_cases_clean + sums.refuse_cases_clean + sums.udp_cases_clean + sums.dual_cases_vacuous) as usize != n_distinct {
             why.push("clean cases do not add up to the matrix");
